@@ -32,6 +32,8 @@ func RunPlan(t *testing.T, p *Plan, want []string, logw io.Writer) *Result {
 		return runCmdCacheWorld(t, p, want, logw)
 	case "puppet":
 		return runPuppetWorld(t, p, want, logw)
+	case "leader":
+		return runLeaderWorld(t, p, want, logw)
 	}
 	res := &Result{Seed: p.Seed}
 	start := time.Now()
